@@ -28,6 +28,7 @@ func main() {
 	budget := flag.Duration("budget", 20*time.Second, "time budget")
 	maxDocs := flag.Int("docs", 0, "limit the number of documents (0 = all)")
 	procs := flag.Int("procs", 0, "GOMAXPROCS (0 = default)")
+	cold := flag.String("cold", "", "a narrow first phase on the cold process: validate | calculate (all goroutines released together, same order, no other stage in between)")
 	flag.Parse()
 	if *procs > 0 {
 		runtime.GOMAXPROCS(*procs)
@@ -44,6 +45,30 @@ func main() {
 	rng.Shuffle(len(docs), func(i, j int) { docs[i], docs[j] = docs[j], docs[i] })
 	if *maxDocs > 0 && len(docs) > *maxDocs {
 		docs = docs[:*maxDocs]
+	}
+	// The full pipeline passes through several process-wide locks (UUID clock, crypto/rand): they
+	// order most accesses of two goroutines and hide unsynchronised first-use writes (lazy caches)
+	// from the detector.  A narrow cold phase has no such stage: every goroutine parses and then
+	// only validates (or only calculates) the same documents in the same order, released together.
+	if *cold != "" {
+		var cwg sync.WaitGroup
+		start := make(chan struct{})
+		src := outputs
+		if *cold == "calculate" {
+			src = inputs
+		}
+		for k := 0; k < *g; k++ {
+			cwg.Add(1)
+			go func() {
+				defer cwg.Done()
+				<-start
+				for _, d := range src {
+					conc.Narrow(d, *cold)
+				}
+			}()
+		}
+		close(start)
+		cwg.Wait()
 	}
 	deadline := time.Now().Add(*budget)
 	// every goroutine walks the same list from a different offset, so that the
